@@ -75,62 +75,93 @@ func c12RoundTrip(c *vk.Ctx, n int) {
 			}
 			segs = append(segs, vs)
 		}
-		snap := index.VerifNewSnapshot(uint64(1+r.Intn(1000)), segs)
-		var buf bytes.Buffer
-		nw, err := snap.WriteTo(&buf, nil)
-		c.Eval(1)
-		if err != nil || int(nw) != buf.Len() {
-			c.Violate("roundtrip-write", fmt.Sprintf("WriteTo: n=%d len=%d err=%v", nw, buf.Len(), err), nil)
-			continue
-		}
-		c.EventMax("max_encoded_snapshot_bytes", int64(buf.Len()))
-		if buf.Len() > 4096 {
-			c.Event("roundtrips_crossing_4096_byte_buffer", 1)
-		}
-		enc := buf.Bytes()
-		// the trailer is the CRC-32 of everything before it
-		if len(enc) < 4 || crc32.ChecksumIEEE(enc[:len(enc)-4]) != binary.BigEndian.Uint32(enc[len(enc)-4:]) {
-			c.Violate("roundtrip-crc-trailer", "the last 4 bytes are not the CRC-32 (IEEE) of the preceding bytes", nil)
-		}
-		back := index.VerifNewSnapshot(0, nil)
-		var nr int64
-		_, _, panicked := bx.Guarded(func() error {
-			nr, err = back.ReadFrom(bytes.NewReader(enc[:len(enc)-4]))
-			return nil
-		})
-		if panicked != "" {
-			c.Violate("roundtrip-read-panics", fmt.Sprintf("ReadFrom panicked on an encoding produced by WriteTo (%d segments, %d bytes): %s", nseg, len(enc), firstLines(panicked, 10)),
-				map[string]interface{}{"segments": nseg, "encoded_bytes": len(enc), "encoding_hex_prefix": fmt.Sprintf("%x", clip(enc, 200))})
-			continue
-		}
-		if err != nil {
-			c.Violate("roundtrip-read", fmt.Sprintf("ReadFrom failed on an encoding produced by WriteTo (%d segments, %d bytes): %v", nseg, len(enc), err), nil)
-			continue
-		}
-		if int(nr) != len(enc)-4 {
-			c.Violate("roundtrip-read-length", fmt.Sprintf("ReadFrom consumed %d of %d bytes", nr, len(enc)-4), nil)
-		}
-		got := back.VerifSegments()
-		if len(got) != len(segs) {
-			c.Violate("roundtrip-segments", fmt.Sprintf("%d segments written, %d read", len(segs), len(got)), nil)
-			continue
-		}
-		for k := range segs {
-			w, g := segs[k], got[k]
-			we := w.Deleted == nil || w.Deleted.IsEmpty()
-			ge := g.Deleted == nil || g.Deleted.IsEmpty()
-			same := w.ID == g.ID && w.Type == g.Type && w.Version == g.Version && we == ge
-			if same && !we {
-				same = w.Deleted.Equals(g.Deleted)
-			}
-			if !same {
-				c.Violate("roundtrip-segment-differs", fmt.Sprintf("segment %d: wrote {id %d type %q ver %d deleted %v} read {id %d type %q ver %d deleted %v}", k, w.ID, w.Type, w.Version, w.Deleted, g.ID, g.Type, g.Version, g.Deleted), nil)
-				break
-			}
-		}
-		c.DistinctHash(vk.Hash64(fmt.Sprintf("rt|%d|%d", nseg, buf.Len()/512)))
+		c12RoundTripOne(c, segs, uint64(1+r.Intn(1000)), "gen")
 	}
 	c.Event("roundtrips", n)
+}
+
+// c12RoundTripOne writes one snapshot, reads it back and compares.
+func c12RoundTripOne(c *vk.Ctx, segs []index.VerifSegment, epoch uint64, class string) {
+	nseg := len(segs)
+	snap := index.VerifNewSnapshot(epoch, segs)
+	var buf bytes.Buffer
+	nw, err := snap.WriteTo(&buf, nil)
+	c.Eval(1)
+	if err != nil || int(nw) != buf.Len() {
+		c.Violate("roundtrip-write", fmt.Sprintf("WriteTo: n=%d len=%d err=%v", nw, buf.Len(), err), nil)
+		return
+	}
+	c.EventMax("max_encoded_snapshot_bytes", int64(buf.Len()))
+	if buf.Len() > 4096 {
+		c.Event("roundtrips_crossing_4096_byte_buffer", 1)
+	}
+	enc := buf.Bytes()
+	// the trailer is the CRC-32 of everything before it
+	if len(enc) < 4 || crc32.ChecksumIEEE(enc[:len(enc)-4]) != binary.BigEndian.Uint32(enc[len(enc)-4:]) {
+		c.Violate("roundtrip-crc-trailer", "the last 4 bytes are not the CRC-32 (IEEE) of the preceding bytes", nil)
+	}
+	back := index.VerifNewSnapshot(0, nil)
+	var nr int64
+	_, _, panicked := bx.Guarded(func() error {
+		nr, err = back.ReadFrom(bytes.NewReader(enc[:len(enc)-4]))
+		return nil
+	})
+	if panicked != "" {
+		c.Violate("roundtrip-read-panics", fmt.Sprintf("ReadFrom panicked on an encoding produced by WriteTo (%d segments, %d bytes): %s", nseg, len(enc), firstLines(panicked, 10)),
+			map[string]interface{}{"segments": nseg, "encoded_bytes": len(enc), "encoding_hex_prefix": fmt.Sprintf("%x", clip(enc, 200))})
+		return
+	}
+	if err != nil {
+		c.Violate("roundtrip-read", fmt.Sprintf("ReadFrom failed on an encoding produced by WriteTo (%d segments, %d bytes): %v", nseg, len(enc), err), nil)
+		return
+	}
+	if int(nr) != len(enc)-4 {
+		c.Violate("roundtrip-read-length", fmt.Sprintf("ReadFrom consumed %d of %d bytes", nr, len(enc)-4), nil)
+	}
+	got := back.VerifSegments()
+	if len(got) != len(segs) {
+		c.Violate("roundtrip-segments", fmt.Sprintf("%d segments written, %d read", len(segs), len(got)), nil)
+		return
+	}
+	for k := range segs {
+		w, g := segs[k], got[k]
+		we := w.Deleted == nil || w.Deleted.IsEmpty()
+		ge := g.Deleted == nil || g.Deleted.IsEmpty()
+		same := w.ID == g.ID && w.Type == g.Type && w.Version == g.Version && we == ge
+		if same && !we {
+			same = w.Deleted.Equals(g.Deleted)
+		}
+		if !same {
+			c.Violate("roundtrip-segment-differs", fmt.Sprintf("segment %d: wrote {id %d type %q ver %d deleted %v} read {id %d type %q ver %d deleted %v}", k, w.ID, w.Type, w.Version, w.Deleted, g.ID, g.Type, g.Version, g.Deleted), nil)
+			break
+		}
+	}
+	c.DistinctHash(vk.Hash64(fmt.Sprintf("rt|%s|%d|%d", class, nseg, buf.Len()/512)))
+}
+
+// c12RoundTripAlign: the same list of a few hundred small segments behind a first entry whose type string
+// grows by one byte per case, so that every field of every kind of entry comes to lie at every offset of the
+// decoder's 4096-byte read window (a field that straddles the window's end, or ends just before it).
+func c12RoundTripAlign(c *vk.Ctx, step int) {
+	bm := roaring.NewBitmap()
+	bm.AddMany([]uint32{1, 5, 70000, 1 << 30})
+	for pad := 0; pad < 4200; pad += step {
+		segs := []index.VerifSegment{{Type: strings.Repeat("t", 3+pad), Version: 1, ID: 7}}
+		for k := 0; k < 420; k++ {
+			vs := index.VerifSegment{Type: "ice", Version: []uint32{1, 2, 0x01020304, 0xfffefdfc}[k%4], ID: uint64(k) + 8}
+			switch k % 5 {
+			case 1:
+				vs.ID = 1<<63 + uint64(k)
+			case 2:
+				vs.Deleted = bm
+			case 3:
+				vs.Type = "icebox-" + strings.Repeat("x", k%17)
+			}
+			segs = append(segs, vs)
+		}
+		c12RoundTripOne(c, segs, uint64(pad+1), "align")
+		c.Event("roundtrips_alignment_sweep", 1)
+	}
 }
 
 // ---------- rejection of damaged files (children) ----------
@@ -626,13 +657,14 @@ func c12Decoder(c *vk.Ctx) {
 }
 
 func runC12(c *vk.Ctx) {
-	c.Rule("round trip: generated snapshots (0..300 segments, ids to 2^64-1, empty to large deleted bitmaps, encodings crossing 4096 bytes) through WriteTo/ReadFrom; " +
+	c.Rule("round trip: generated snapshots (0..300 segments, ids to 2^64-1, empty to large deleted bitmaps, encodings crossing 4096 bytes; an alignment sweep that moves a list of 420 entries byte by byte through the decoder's 4096-byte read window) through WriteTo/ReadFrom; " +
 		"rejection: a directory with an intact older snapshot and a newer one, the newer file replaced by every truncation, every single-bit flip, appended tails, extensions with a recomputed CRC, length-field attacks with a valid CRC, garbage; opened in child processes through OpenReader and OpenWriter with the mmap and the non-mmap loader; " +
 		"decoder: length attacks, truncations and random mutations straight into ReadFrom in children with an address-space limit; distinct non-trivial = distinct damaged files that were rejected and fell back, plus distinct (class, decoder error)")
 	c.Assume("allocation is measured as runtime.MemStats.TotalAlloc delta in the child, budget = cost of opening the intact index + 64 x file length + 1 MiB; RLIMIT_AS 3 GiB turns giant allocations into a dead child",
 		"a damaged newer snapshot must lead to the older intact one (content and epoch are both checked)",
 		"a sample of the same damages applied to each retained snapshot that is NOT the newest must leave OpenReader and OpenWriter on the intact newest one")
 	c12RoundTrip(c, c.Pick(1500, 60000))
+	c12RoundTripAlign(c, c.Pick(5, 1))
 	c12Decoder(c)
 	c12Rejection(c)
 	if !c.Quick() {
@@ -641,6 +673,7 @@ func runC12(c *vk.Ctx) {
 		runGoFuzz(c, "FuzzSnapshotLoad", 30000)
 	}
 	c.Require("roundtrips", 500)
+	c.Require("roundtrips_alignment_sweep", 500)
 	c.Require("roundtrips_crossing_4096_byte_buffer", 10)
 	c.Require("damaged_truncation", 20)
 	c.Require("damaged_bitflip", 100)
